@@ -162,7 +162,10 @@ pub fn step<const M: usize>(s: &mut Sim<M>, rep: &mut Report, p: &Profile) -> (u
             let len = if esz == 0 { s.rng.below(10) } else { bytes / esz };
             let fail = if len > 0 && s.rng.chance(3, 5) { Some(s.rng.below(len)) } else { None };
             let it = s.rng.chance(1, 2);
-            s.op_slice_try_fill(rep, ty, len, fail, it, true)
+            s.slice_inner = *s.rng.pick(&[0u8, 0, 1, 2]);
+            let o = s.op_slice_try_fill(rep, ty, len, fail, it, true);
+            s.slice_inner = 0;
+            o
         }
         6 => {
             let size = pick_size(s, p);
